@@ -8,6 +8,7 @@ package main
 import (
 	"bufio"
 	"fmt"
+	"strconv"
 	"sort"
 	"strings"
 	"sync"
@@ -34,9 +35,19 @@ type c16Style struct {
 	Bare      bool // bare addr-spec where the URI allows it
 	Response  bool
 	Swap      bool
+	Spell     [4]int // per header (From, To, Call-ID, Content-Length): 0 = as Names says, 1.. = c16Spellings[k-1]
+}
+
+// every way a header name can be written: canonical, compact in both cases, upper, lower, odd case
+var c16Spellings = [][4]string{
+	{"From", "To", "Call-ID", "Content-Length"}, {"f", "t", "i", "l"}, {"F", "T", "I", "L"},
+	{"FROM", "TO", "CALL-ID", "CONTENT-LENGTH"}, {"from", "to", "call-id", "content-length"}, {"fROM", "tO", "cALL-iD", "Content-length"},
 }
 
 func (s c16Style) String() string {
+	if s.Spell != [4]int{} {
+		return fmt.Sprintf("d%d,up%v,uh%v,pp%v,pa%v,n%d,b%v,r%v,s%v,spell%v", s.Display, s.UriParams, s.UriHdrs, s.ParamPre, s.ParamPost, s.Names, s.Bare, s.Response, s.Swap, s.Spell)
+	}
 	return fmt.Sprintf("d%d,up%v,uh%v,pp%v,pa%v,n%d,b%v,r%v,s%v", s.Display, s.UriParams, s.UriHdrs, s.ParamPre, s.ParamPost, s.Names, s.Bare, s.Response, s.Swap)
 }
 
@@ -79,7 +90,13 @@ func c16RenderAddr(uri, tag string, st c16Style, side int) string {
 }
 
 func c16Render(a c16Asg, st c16Style) string {
-	names := [][3]string{{"From", "To", "Call-ID"}, {"f", "t", "i"}, {"FROM", "TO", "CALL-ID"}, {"from", "tO", "call-Id"}}[st.Names]
+	n3 := [][3]string{{"From", "To", "Call-ID"}, {"f", "t", "i"}, {"FROM", "TO", "CALL-ID"}, {"from", "tO", "call-Id"}}[st.Names]
+	names := [4]string{n3[0], n3[1], n3[2], "Content-Length"}
+	for k := range names {
+		if st.Spell[k] > 0 {
+			names[k] = c16Spellings[st.Spell[k]-1][k]
+		}
+	}
 	tf, uf, tt, ut := a.TagF, a.UriF, a.TagT, a.UriT
 	if st.Swap {
 		tf, uf, tt, ut = tt, ut, tf, uf
@@ -94,7 +111,7 @@ func c16Render(a c16Asg, st c16Style) string {
 	sb.WriteString(names[0] + ": " + c16RenderAddr(uf, tf, st, 0) + "\r\n")
 	sb.WriteString(names[1] + ": " + c16RenderAddr(ut, tt, st, 1) + "\r\n")
 	sb.WriteString(names[2] + ": " + a.CallID + "\r\n")
-	sb.WriteString("CSeq: 2 BYE\r\nContent-Length: 0\r\n\r\n")
+	sb.WriteString("CSeq: 2 BYE\r\n" + names[3] + ": 0\r\n\r\n")
 	return sb.String()
 }
 
@@ -264,6 +281,42 @@ func TestC16(t *testing.T) {
 
 	styles := c16Styles(V.Thorough())
 	V.Regress(t, c16Regress)
+	// header-name spelling: every combination of the six ways to write From, To,
+	// Call-ID (and the three of Content-Length that differ in kind) on a handful
+	// of assignments, both orientations, request and response - one identity each
+	t.Run("spellings", func(t *testing.T) {
+		if V.replay && !strings.HasPrefix(V.only, "spellings:") {
+			return
+		}
+		asgs := []c16Asg{
+			{CallID: "c@h", TagF: "a", UriF: "sip:u@h:5070", TagT: "b", UriT: "sip:v@g"},
+			{CallID: "c-1", TagF: "a-b", UriF: "tel:+1", TagT: "b", UriT: "urn:service:sos"},
+			{CallID: "C", TagF: "0", UriF: "sip:h", TagT: "0", UriT: "sip:h"},
+		}
+		for ai, a := range asgs {
+			var styles []c16Style
+			for f := 1; f <= 6; f++ {
+				for to := 1; to <= 6; to++ {
+					for ci := 1; ci <= 6; ci++ {
+						for _, cl := range []int{1, 2, 3, 5} {
+							styles = append(styles, c16Style{Spell: [4]int{f, to, ci, cl}, Response: (f+to+ci)%2 == 0, Swap: (f+ci+cl)%3 == 0, Display: (to + cl) % 3, ParamPost: ci%2 == 0})
+						}
+					}
+				}
+			}
+			only := fmt.Sprintf("spellings:%d", ai)
+			if !V.OnlyMatch(only) {
+				continue
+			}
+			if _, msg := c16Group(a, styles); msg != "" {
+				V.Violation(t, only, a, "%s", msg)
+				return
+			}
+			V.Class("every spelling combination of From / To / Call-ID / Content-Length")
+			V.NonTrivial(fmt.Sprintf("spell|%d", ai))
+		}
+	})
+
 	t.Run("exhaustive", func(t *testing.T) {
 		byID := map[string]c16Asg{}
 		n := 0
@@ -364,7 +417,11 @@ func TestC16(t *testing.T) {
 			}
 			u += genHost.Draw(rt, "host")
 			if rapid.Bool().Draw(rt, "port") {
-				u += fmt.Sprintf(":%d", rapid.IntRange(1024, 65535).Draw(rt, "p"))
+				if rapid.Bool().Draw(rt, "high port") {
+					u += fmt.Sprintf(":%d", rapid.SampledFrom([]int{32767, 32768, 40000, 49152, 50000, 65535}).Draw(rt, "p"))
+				} else {
+					u += fmt.Sprintf(":%d", rapid.IntRange(1, 65535).Draw(rt, "p"))
+				}
 			}
 			return u
 		}
@@ -375,6 +432,11 @@ func TestC16(t *testing.T) {
 			Bare: rapid.Bool().Draw(rt, "b"), Response: rapid.Bool().Draw(rt, "r"), Swap: rapid.Bool().Draw(rt, "s")}
 		if s.Bare {
 			s.Display, s.UriParams, s.UriHdrs = 0, false, false
+		}
+		if rapid.IntRange(0, 2).Draw(rt, "spell") == 0 {
+			for k := range s.Spell {
+				s.Spell[k] = rapid.IntRange(1, len(c16Spellings)).Draw(rt, "spelling")
+			}
 		}
 		return s
 	})
@@ -418,7 +480,13 @@ func TestC16(t *testing.T) {
 				case 4:
 					p.host = "z" + p.host
 				default:
-					p.port = "4999"
+					// another port, from anywhere in the range - in particular a second
+					// one beyond 32767 / 49151 where the first one is
+					np := strconv.Itoa(rapid.SampledFrom([]int{1, 80, 1023, 1024, 4999, 5059, 5061, 5062, 32766, 32767, 32768, 32769, 40000, 49151, 49152, 50000, 60000, 65534, 65535}).Draw(rt, "newport"))
+					if np == p.port || (p.port == "" && np == "5060") {
+						np = "4998"
+					}
+					p.port = np
 				}
 				*u = "sip:"
 				if p.user != "" {
